@@ -378,6 +378,7 @@ fn any_wf_len() -> u64 {
 //@ stubs: EncryptionLayerInternal::load_in_cache -> load contract (refined by h_enc_load_auth_refines); alloc::fmt::format -> empty; From<mla::Error> for io::Error -> payload-free
 //@ outside: inner streams >= 2^{NBITS} bytes; byte values (decided by the load contract + refinement harness)
 //@ replay: verif_replay_encrypt::enc_seek op=start n:u64 ipos:u64 ccn:u32 cl:u64 cp:u64 mode:bool p:u64
+#[cfg(not(feature = "verif_api_only"))]
 #[kani::proof]
 #[kani::unwind(3)]
 #[kani::stub(alloc::fmt::format, nofmt)]
@@ -416,6 +417,7 @@ fn h_enc_seek_start() {
 //@ stubs: EncryptionLayerInternal::load_in_cache -> load contract (refined by h_enc_load_auth_refines); alloc::fmt::format -> empty; From<mla::Error> for io::Error -> payload-free
 //@ outside: inner streams >= 2^{NBITS} bytes; malformed lengths (C08 harnesses)
 //@ replay: verif_replay_encrypt::enc_seek op=end n:u64 ipos:u64 ccn:u32 cl:u64 cp:u64 mode:bool d:i64
+#[cfg(not(feature = "verif_api_only"))]
 #[kani::proof]
 #[kani::unwind(3)]
 #[kani::stub(alloc::fmt::format, nofmt)]
@@ -462,6 +464,7 @@ fn positioned_internal(n: u64, c: u64) -> EncryptionLayerInternal<Abs> {
 //@ stubs: EncryptionLayerInternal::load_in_cache -> load contract; alloc::fmt::format -> empty; From<mla::Error> for io::Error -> payload-free
 //@ outside: pre-states not reachable by seek(Start)/sequential reads
 //@ replay: verif_replay_encrypt::enc_seek op=current n:u64 c:u64 by_read:bool mode:bool d:i64
+#[cfg(not(feature = "verif_api_only"))]
 #[kani::proof]
 #[kani::unwind(3)]
 #[kani::stub(alloc::fmt::format, nofmt)]
@@ -610,6 +613,7 @@ fn shrink_only_resize<T: Clone, A: core::alloc::Allocator>(v: &mut Vec<T, A>, ne
 //@ stubs: AesGcm256::new -> same struct via model constructors + ghost log; AesGcm256::decrypt -> IDEAL MAC (tag matches iff chunk authentic); alloc::io::default_read_to_end -> single read into spare capacity; alloc::fmt::format; From<mla::Error> for io::Error
 //@ outside: that AES-GCM is a secure MAC
 //@ replay: verif_replay_encrypt::enc_load q:u64 n:u64 ccn:u32 auth:bool cl:u64 cp:u64 tag_at:usize tag_bits:u8
+#[cfg(not(feature = "verif_api_only"))]
 #[kani::proof]
 #[kani::unwind(34)]
 #[kani::stub(alloc::fmt::format, nofmt)]
@@ -629,6 +633,7 @@ fn h_enc_load_auth_refines() {
 //@ stubs: AesGcm256::new -> same struct via model constructors + ghost log; AesGcm256::decrypt -> IDEAL MAC (tag matches iff chunk authentic); alloc::io::default_read_to_end -> exactly two reads into spare capacity; alloc::fmt::format; From<mla::Error> for io::Error
 //@ outside: that AES-GCM is a secure MAC
 //@ replay: verif_replay_encrypt::enc_load short=1 q:u64 n:u64 ccn:u32 auth:bool cl:u64 cp:u64 tag_at:usize tag_bits:u8
+#[cfg(not(feature = "verif_api_only"))]
 #[kani::proof]
 #[kani::unwind(34)]
 #[kani::stub(alloc::fmt::format, nofmt)]
@@ -641,6 +646,7 @@ fn h_enc_load_auth_refines_short() {
     load_auth_body(true);
 }
 
+#[cfg(not(feature = "verif_api_only"))]
 fn load_auth_body(short: bool) {
     let q: u64 = kani::any();
     let n: u64 = kani::any();
@@ -704,6 +710,7 @@ fn load_auth_body(short: bool) {
 //@ stubs: as h_enc_load_auth_refines (ideal MAC; AesGcm256::new via model constructors; single-read read_to_end)
 //@ outside: chunk indices > 3; more than one earlier load (any state an earlier load can leave is covered only as far as one load produces it)
 //@ replay: verif_replay_encrypt::enc_load_history n:u64 q0:u64 ccn0:u32 auth0:bool q:u64 ccn:u32 auth:bool tag_at:usize tag_bits:u8
+#[cfg(not(feature = "verif_api_only"))]
 #[kani::proof]
 #[kani::unwind(34)]
 #[kani::stub(alloc::fmt::format, nofmt)]
@@ -764,6 +771,57 @@ fn h_enc_load_auth_history() {
     core::mem::forget(l);
 }
 
+//@ props: C03 C10
+//@ scaled: yes
+//@ functions: <layers::encrypt::EncryptionLayerInternal<R> as std::io::Seek>::seek (Start arm) over the REAL load_in_cache body — public Seek interface only: the loader is not named, so a loader whose signature changes is still reached
+//@ bounds: SCALED build; inner length n <= 3*20+64; reader standing at ANY earlier chunk index 0..=8 (as an earlier seek leaves it), absolute target 0..=16 (backward, forward or same chunk); authenticity of chunks 0..=3 and of the rest symbolic
+//@ stubs: AesGcm256::decrypt -> ideal MAC; AesGcm256::new via model constructors; single-read read_to_end; shrink-only resize; alloc::fmt::format; From<mla::Error> for io::Error
+//@ outside: End / Current arms with the real loader (they end in the Start arm; decided over the load contract by h_enc_seek_*); two real seeks in a row (the release of what the first call leaves is flagged by the back end after the Ok/Err join: artefact, DESIGN §13.3) — state left by an earlier load is h_enc_load_auth_history's subject
+//@ api_only: yes
+//@ replay: verif_replay_encrypt::enc_seek_twice n:u64 ccn0:u32 p:u64 a0:bool a1:bool a2:bool a3:bool ar:bool tag_at:usize tag_bits:u8
+#[kani::proof]
+#[kani::unwind(34)]
+#[kani::stub(alloc::fmt::format, nofmt)]
+#[kani::stub(<std::io::Error as std::convert::From<crate::errors::Error>>::from, cheap_from)]
+#[kani::stub(crate::crypto::aesgcm::AesGcm256::new, stub_gcm_new)]
+#[kani::stub(crate::crypto::aesgcm::AesGcm256::decrypt, stub_gcm_decrypt)]
+#[kani::stub(alloc::io::default_read_to_end, model_rte)]
+#[kani::stub(alloc::vec::Vec::resize, shrink_only_resize)]
+fn h_enc_seek_real() {
+    let n: u64 = kani::any();
+    let ccn0: u32 = kani::any();
+    let p: u64 = kani::any();
+    kani::assume(n <= 3 * SPEC_CTS + 64 && ccn0 <= 8 && p <= 16);
+    any_authenticity();
+    let diff_at: usize = kani::any();
+    let diff_bits: u8 = kani::any();
+    kani::assume(diff_at < 16 && diff_bits != 0);
+    unsafe {
+        TAG_DIFF_AT = diff_at;
+        TAG_DIFF_BITS = diff_bits;
+    }
+    // the reader stands where an earlier access to chunk ccn0 left it
+    let ipos = core::cmp::min(n, (u64::from(ccn0) + 1) * SPEC_CTS);
+    let mut l = mk_internal(Abs::new(n, ipos), ccn0, 0, 0);
+    let ch = (p / SPEC_CHUNK) as u32;
+    kani::cover!(ch < ccn0 && !authentic(ch) && u64::from(ch + 1) * SPEC_CTS <= n, "backward seek onto an altered chunk");
+    kani::cover!(ch > ccn0 && !authentic(ch) && u64::from(ch + 1) * SPEC_CTS <= n, "forward seek onto an altered chunk");
+    let r = l.seek(SeekFrom::Start(p));
+    match r {
+        Ok(_) => {
+            if !l.chunk_cache.get_ref().is_empty() {
+                assert!(authentic(ch), "after seek(Start(p)) the reader holds bytes of a chunk whose tag did not verify");
+                assert!(l.current_chunk_number == ch, "the cached chunk is the one the position lies in");
+            }
+        }
+        Err(e) => {
+            core::mem::forget(e);
+            assert!(l.chunk_cache.get_ref().is_empty(), "a failed seek leaves bytes of a rejected chunk readable");
+        }
+    }
+    core::mem::forget(l);
+}
+
 /// stand-in for `std::io::copy` where the unauthenticated load skips the tag: two reads of <= 32
 /// bytes forwarded with write_all (std's driver zero-fills an 8 KiB stack buffer in a loop)
 fn copy_tag_skip<R: Read + ?Sized, W: Write + ?Sized>(r: &mut R, w: &mut W) -> io::Result<u64> {
@@ -782,6 +840,7 @@ fn copy_tag_skip<R: Read + ?Sized, W: Write + ?Sized>(r: &mut R, w: &mut W) -> i
 //@ stubs: AesGcm256::new -> same struct via model constructors + ghost log; alloc::io::default_read_to_end -> single read into spare capacity; std::io::copy -> single read + write_all; alloc::fmt::format; From<mla::Error> for io::Error
 //@ outside: -
 //@ replay: verif_replay_encrypt::enc_load_unauth q:u64 n:u64 ccn:u32
+#[cfg(not(feature = "verif_api_only"))]
 #[kani::proof]
 #[kani::unwind(34)]
 #[kani::stub(alloc::fmt::format, nofmt)]
@@ -800,6 +859,7 @@ fn h_enc_load_unauth_refines() {
 //@ stubs: AesGcm256::new -> same struct via model constructors + ghost log; alloc::io::default_read_to_end -> exactly two reads into spare capacity; std::io::copy -> single read + write_all; alloc::fmt::format; From<mla::Error> for io::Error
 //@ outside: -
 //@ replay: verif_replay_encrypt::enc_load_unauth short=1 q:u64 n:u64 ccn:u32
+#[cfg(not(feature = "verif_api_only"))]
 #[kani::proof]
 #[kani::unwind(34)]
 #[kani::stub(alloc::fmt::format, nofmt)]
@@ -811,6 +871,7 @@ fn h_enc_load_unauth_refines_short() {
     load_unauth_body(true);
 }
 
+#[cfg(not(feature = "verif_api_only"))]
 fn load_unauth_body(short: bool) {
     let q: u64 = kani::any();
     let n: u64 = kani::any();
@@ -860,6 +921,7 @@ fn load_unauth_body(short: bool) {
 //@ stubs: EncryptionLayerInternal::load_in_cache -> load contract (ideal MAC); alloc::fmt::format; From<mla::Error> for io::Error
 //@ outside: buffers > 8 bytes (the code only takes min(buffer, cache remainder)); byte values (std Cursor read is trusted)
 //@ replay: verif_replay_encrypt::enc_read n:u64 c:u64 by_read:bool blen:usize a0:bool a1:bool a2:bool a3:bool ar:bool mode:bool
+#[cfg(not(feature = "verif_api_only"))]
 #[kani::proof]
 #[kani::unwind(3)]
 #[kani::stub(alloc::fmt::format, nofmt)]
@@ -972,6 +1034,7 @@ fn prefix_authentic(i: u32) -> bool {
 //@ stubs: load_in_cache / load_in_cache_unauthenticated -> load contracts (decided by the refinement harnesses); AesGcm256::new via model constructors; alloc::fmt::format; From<mla::Error> for io::Error
 //@ outside: -
 //@ replay: verif_replay_encrypt::enc_fs_new_empty
+#[cfg(not(feature = "verif_api_only"))]
 #[kani::proof]
 #[kani::unwind(5)]
 #[kani::stub(alloc::fmt::format, nofmt)]
@@ -1021,6 +1084,7 @@ fn h_enc_fs_new_empty() {
 //@ outside: the repair block loop above the layer (HashMap-bound); byte values
 //@ known: F4
 //@ replay: verif_replay_encrypt::enc_fs_auth n:u64 i:u32 cp:u64 a0:bool a1:bool a2:bool a3:bool ar:bool b1:usize b2:usize
+#[cfg(not(feature = "verif_api_only"))]
 #[kani::proof]
 #[kani::unwind(5)]
 #[kani::stub(alloc::fmt::format, nofmt)]
@@ -1108,6 +1172,7 @@ fn h_enc_fs_read_auth() {
 //@ stubs: load_in_cache_unauthenticated -> load contract; alloc::fmt::format; From<mla::Error> for io::Error
 //@ outside: the repair block loop above the layer; byte values
 //@ replay: verif_replay_encrypt::enc_fs_unauth n:u64 i:u32 cp:u64 b1:usize
+#[cfg(not(feature = "verif_api_only"))]
 #[kani::proof]
 #[kani::unwind(5)]
 #[kani::stub(alloc::fmt::format, nofmt)]
@@ -1167,6 +1232,7 @@ fn h_enc_fs_read_unauth() {
 //@ stubs: load_in_cache / load_in_cache_unauthenticated -> load contracts; AesGcm256::new -> model constructors; alloc::fmt::format; From<mla::Error> for io::Error
 //@ expect_fail: F4
 //@ replay: verif_replay_encrypt::enc_fs_first n:u64 a0:bool
+#[cfg(not(feature = "verif_api_only"))]
 #[kani::proof]
 #[kani::unwind(5)]
 #[kani::stub(alloc::fmt::format, nofmt)]
@@ -1221,6 +1287,7 @@ fn h_enc_fs_first_chunk_auth() {
 //@ stubs: EncryptionLayerInternal::load_in_cache -> load contract (its real body is total by h_enc_load_auth_refines); alloc::fmt::format; From<mla::Error> for io::Error
 //@ outside: nothing is asserted about results here — the claim is only that no panic (overflow, unwrap, index) is reachable
 //@ replay: verif_replay_encrypt::enc_seek_total n:u64 ipos:u64 ccn:u32 cl:u64 cp:u64 mode:bool which:u8 off:u64
+#[cfg(not(feature = "verif_api_only"))]
 #[kani::proof]
 #[kani::unwind(3)]
 #[kani::stub(alloc::fmt::format, nofmt)]
